@@ -169,7 +169,9 @@ fn main() {
     let per = 40usize;
     let nh = ((args.cases + per - 1) / per).max(1);
     let mut done = 0usize;
-    for h in 0..nh {
+    let plan = boundary_plan();
+    for h in 0..(nh + 1) {
+        let scripted = h == 0;
         let hroot = root.fork(2_000_000 + h as u64);
         let mut world = match World::try_new() {
         Ok(w) => w,
@@ -180,11 +182,24 @@ fn main() {
         }
     };
         let mut nodes_before = scan(world.db()).nodes;
-        let n = per.min(args.cases.saturating_sub(done)).max(1);
+        let n = if scripted { plan.len() } else { per.min(args.cases.saturating_sub(done)).max(1) };
         for i in 0..n {
             let gi = done + i;
             let mut rng = hroot.fork(i as u64);
-            let tx = world.next_tx(&mut rng);
+            let tx = if scripted {
+                match world.boundary_step(i) {
+                    Some((class, tx)) => {
+                        report.count(&format!("bf_{}", class));
+                        tx
+                    }
+                    None => {
+                        report.count(&format!("bf_skipped_{}", plan[i].0));
+                        continue;
+                    }
+                }
+            } else {
+                world.next_tx(&mut rng)
+            };
             report.count(&format!("tx_{}", tx.label));
             let receipt = match world.run(&tx) {
                 Ok(r) => r,
@@ -220,7 +235,9 @@ fn main() {
             }
             nodes_before = s.nodes;
         }
-        done += n;
+        if !scripted {
+            done += n;
+        }
         // the final ownership relation as a model store: internal nodes with their owner, oldest owner first
         let (owners, nodes) = ownership(&world);
         let mut idx: BTreeMap<NodeId, u64> = BTreeMap::new();
@@ -240,6 +257,13 @@ fn main() {
         }
         report.count_n("nodes_in_final_relations", nodes.len() as u64);
         cw.push(coq_list(entries));
+    }
+    let mut per_class: BTreeMap<&'static str, u64> = BTreeMap::new();
+    for (c, _) in &plan {
+        *per_class.entry(*c).or_default() += 1;
+    }
+    for (c, k) in &per_class {
+        report.floor(&format!("bf_{}", c), *k);
     }
     let n = args.cases as u64;
     report.floor("checker_runs", n / 2);
